@@ -74,6 +74,15 @@ func init() {
 			return fmtScore(parseScore(a[1]).Negate())
 		case "inc":
 			return fmtScore(eval.IncrementMateDistance(parseScore(a[1])))
+		case "dec":
+			return fmtScore(eval.DecrementMateDistance(parseScore(a[1])))
+		case "decinc": // one ply closer, then one ply further: the value every field of which is reported
+			return fmtScore(eval.IncrementMateDistance(eval.DecrementMateDistance(parseScore(a[1]))))
+		case "roundtrip": // the search's window round trip: Negate(Increment(Decrement(Negate(s))))
+			return fmtScore(eval.IncrementMateDistance(eval.DecrementMateDistance(parseScore(a[1]).Negate())).Negate())
+		case "deceq": // a decided score reached by decrementing is THE decided score (equal, not only equally ranked)
+			x := eval.DecrementMateDistance(parseScore(a[1]))
+			return fmt.Sprint(x == eval.InfScore, x == eval.NegInfScore, x.Negate().Negate() == x)
 		case "max":
 			return fmtScore(eval.Max(parseScore(a[1]), parseScore(a[2])))
 		case "min":
@@ -137,7 +146,7 @@ func genScore(o *Out, r *rand.Rand, thorough bool) {
 	o.info["pool_size"] = len(pool)
 	for _, a := range pool {
 		sa := fmtScore(a)
-		for _, op := range []string{"neg", "inc", "dist", "negneg"} {
+		for _, op := range []string{"neg", "inc", "dist", "negneg", "dec", "decinc", "roundtrip", "deceq"} {
 			o.do("score " + op + " " + sa)
 		}
 		o.Count("unary")
